@@ -186,7 +186,28 @@ pub fn check_moment_values(label: &str, m: &MomentSpec, block: &drd::GenericData
             label, i, raw, dec[i], mv[i]
         );
     }
+    // sibling entry points: the block's own borrowing / consuming conversions give the same moment data as
+    // the one found in the radial
+    let direct = no_panic("GenericDataBlock::moment_data", || block.moment_data())?;
+    let consumed = no_panic("GenericDataBlock::into_moment_data", || block.clone().into_moment_data())?;
+    for (name, md) in [("moment_data", &direct), ("into_moment_data", &consumed)] {
+        let v = no_panic("MomentData::values", || md.values())?;
+        ensure!(
+            v.len() == mv.len() && v.iter().zip(mv.iter()).all(|(a, b)| same_model_value(a, b)),
+            format!("values:block-{}-differs-from-radial-{}bit", name, ws),
+            "{}: GenericDataBlock::{}() yields different values than the radial's moment ({} vs {} gates)",
+            label, name, v.len(), mv.len()
+        );
+    }
     Ok(())
+}
+
+fn same_model_value(a: &MomentValue, b: &MomentValue) -> bool {
+    match (a, b) {
+        (MomentValue::Value(x), MomentValue::Value(y)) => x.to_bits() == y.to_bits() || (x.is_nan() && y.is_nan()) || x == y,
+        (MomentValue::BelowThreshold, MomentValue::BelowThreshold) | (MomentValue::RangeFolded, MomentValue::RangeFolded) => true,
+        _ => false,
+    }
 }
 
 const STATUS_NAMES: [&str; 6] = [
@@ -213,6 +234,17 @@ pub fn check_radial_against_spec(s: &DrdSpec, msg: &drd::Message, r: &Radial) ->
     if h.date >= 1 && h.time < 86_400_000 {
         ensure_eq!(r.collection_timestamp(), epoch_millis(h.date, h.time as u64), "radial:collection_timestamp", "date {} time {}", h.date, h.time);
     }
+    // sibling accessors: the typed (uom) views of the same angles.  uom stores an Angle in radians (f32), so the
+    // degree -> radian -> degree round trip may lose an ulp or two: compared with a relative tolerance of 1e-5
+    {
+        use uom::si::angle::degree;
+        let near = |typed: f32, plain: f32| typed == plain || (typed - plain).abs() <= 1e-5 * plain.abs().max(f32::MIN_POSITIVE) || (typed.is_nan() && plain.is_nan()) || (!typed.is_finite() && (plain.abs() > 1e37 || !plain.is_finite())) || plain.abs() < 1e-30;
+        ensure!(near(r.azimuth().get::<degree>(), r.azimuth_angle_degrees()), "radial:azimuth()-differs-from-degrees", "{} vs {}", r.azimuth().get::<degree>(), r.azimuth_angle_degrees());
+        ensure!(near(r.elevation_angle().get::<degree>(), r.elevation_angle_degrees()), "radial:elevation_angle()-differs-from-degrees", "{} vs {}", r.elevation_angle().get::<degree>(), r.elevation_angle_degrees());
+        ensure!(near(r.azimuth_spacing().get::<degree>(), r.azimuth_spacing_degrees()), "radial:azimuth_spacing()-differs-from-degrees", "{} vs {}", r.azimuth_spacing().get::<degree>(), r.azimuth_spacing_degrees());
+    }
+    // sibling accessor: the chrono view of the same instant
+    ensure_eq!(r.collection_time().map(|d| d.timestamp_millis()), chrono::DateTime::from_timestamp_millis(r.collection_timestamp()).map(|d| d.timestamp_millis()), "radial:collection_time-differs-from-collection_timestamp");
     // one-to-one status: documented codes 0..=5 map to the six names; other codes map as the header accessor does
     let model_status = format!("{:?}", r.radial_status());
     if (h.status as usize) < 6 {
@@ -273,11 +305,27 @@ pub struct TableCase {
     pub word_size: u8,
     pub scale_bits: u32,
     pub offset_bits: u32,
+    /// how the raw values are laid out into gate vectors (length-dependent code paths): 8-bit tables of
+    /// 256 / 257 / 300 / 512 / 513 / 1024 / 1840 / 4099 gates (raw value = gate index mod 256, rotated),
+    /// 16-bit tables split into blocks at different points
+    #[serde(default)]
+    pub layout: u8,
 }
 
 /// All raw values of one word size under one (scale, offset) pair.
 pub fn check_table(c: &TableCase) -> Check {
-    let halves: Vec<std::ops::Range<u32>> = if c.word_size == 16 { vec![0..32_768, 32_768..65_536] } else { vec![0..256] };
+    let halves: Vec<std::ops::Range<u32>> = if c.word_size == 16 {
+        match c.layout % 4 {
+            0 => vec![0..32_768, 32_768..65_536],
+            1 => vec![0..65_535, 65_535..65_536],
+            2 => vec![0..1, 1..65_536],
+            _ => vec![0..257, 257..21_845, 21_845..43_690, 43_690..65_536],
+        }
+    } else {
+        let n = [256u32, 257, 300, 512, 513, 1024, 1840, 4099][(c.layout % 8) as usize];
+        // the same 256 raw values, cycled to n gates and rotated by the layout number
+        vec![c.layout as u32..c.layout as u32 + n]
+    };
     for range in halves {
         let gates = (range.end - range.start) as u16;
         let data: Vec<u8> = if c.word_size == 16 {
@@ -368,12 +416,12 @@ pub fn run(ctx: &Ctx, rep: &mut Report) {
         rep.prop(
             sub,
             if ws == 8 {
-                "proptest over finite (scale, offset) pairs (incl. 0, -0, negative, tiny, huge); each case enumerates ALL 256 raw values of an 8-bit moment at decode and model level; every table counts as non-trivial unless scale == 0"
+                "proptest over finite (scale, offset) pairs (incl. 0, -0, negative, tiny, huge); each case enumerates ALL 256 raw values of an 8-bit moment at decode and model level, laid out into 256 / 257 / 300 / 512 / 513 / 1024 / 1840 / 4099 gates; every table counts as non-trivial unless scale == 0"
             } else {
-                "proptest over finite (scale, offset) pairs; each case enumerates ALL 65536 raw values of a 16-bit moment (two blocks of 32768 gates) at decode and model level; non-trivial unless scale == 0"
+                "proptest over finite (scale, offset) pairs; each case enumerates ALL 65536 raw values of a 16-bit moment (split into 2-4 blocks at varying points) at decode and model level; non-trivial unless scale == 0"
             },
             ctx.tier.pick(quick, thorough),
-            move || finite_scale_offset().prop_map(move |(scale_bits, offset_bits)| TableCase { word_size: ws, scale_bits, offset_bits }),
+            move || (finite_scale_offset(), any::<u8>()).prop_map(move |((scale_bits, offset_bits), layout)| TableCase { word_size: ws, scale_bits, offset_bits, layout }),
             |c| CaseInfo::new(f32::from_bits(c.scale_bits) != 0.0).class(f32::from_bits(c.scale_bits) == 0.0, "scale-zero").class(f32::from_bits(c.scale_bits) < 0.0, "negative-scale"),
             check_table,
         );
